@@ -105,7 +105,10 @@ def run_ops(model, objs, ops):
             steps, amt = model.downward(source=opt(op[1], objs))
             res.append([steps, fr(amt), dump(objs)])
         elif t == 5:
-            steps, amt = model.infer(source=opt(op[1], objs), max_steps=op[2])
+            if op[1] >= 0 and getattr(model, "query", None) is objs[op[1]]:
+                steps, amt = model.infer_query(max_steps=op[2])      # documented as infer(source=model.query)
+            else:
+                steps, amt = model.infer(source=opt(op[1], objs), max_steps=op[2])
             res.append([steps, fr(amt), dump(objs)])
         elif t == 6:
             model.set_query(objs[op[1]], converge=bool(op[2]))
